@@ -285,6 +285,9 @@ pub fn files_oracle(seed: u64, from: u64, to: u64) -> Oracle {
 
 pub fn run(driver: &Driver, seed: u64, thorough: bool, replay: Option<&Value>) -> Report {
     let mut rep = Report::new("C06");
+    if std::env::var("VERIF_DEBUG").is_ok() {
+        std::panic::set_hook(Box::new(|i| eprintln!("{}", i)));
+    }
     if let Some(r) = replay {
         let seed = r["seed"].as_u64().unwrap_or(seed);
         let case = r["case"].as_u64().unwrap_or(0);
